@@ -324,14 +324,17 @@ def grace (cfg : Cfg) (s : State) : Task → Nat
   | .root r => if r.kind == .killer then cfg.D else cfg.E
   | .sub i => if s.kind i == .pinger then cfg.W else cfg.E
 
-/-- `for task in tasks: task.cancel()` over the live root tasks -/
+/-- `for task in tasks: task.cancel()` over the live root tasks
+    (a cancellation reaches a task only while it waits for its flag or runs: a task that is already in its `finally:`
+    shields its depletion / stopping and suppresses further cancellations) -/
 def cancelRoots (s : State) : Task → Bool
-  | .root r => s.creq (.root r) || (s.st (.root r)).live
+  | .root r => s.creq (.root r) || decide (s.st (.root r) = .running) || decide (s.st (.root r) = .waitingFlag)
   | t => s.creq t
 
 /-- the orchestrator's `stop(ensemble tasks)` -/
 def cancelSubs (s : State) : Task → Bool
-  | .sub i => s.creq (.sub i) || (decide (i < s.nSubs) && (s.st (.sub i)).live)
+  | .sub i => s.creq (.sub i)
+              || (decide (i < s.nSubs) && (decide (s.st (.sub i) = .running) || decide (s.st (.sub i) = .waitingFlag)))
   | t => s.creq t
 
 def dlReached (now : Nat) : TS → Bool
@@ -642,7 +645,15 @@ def step (cfg : Cfg) (s : State) : Label → Option State
           if cfg.fixed = true ∧ f = true ∧ s.gone i = false ∧ s.st (.root .orchestrator) = .running then
             -- the done-callback of the orchestrator: a failed ensemble task cancels it (HTTP 404 is exempt)
             some { s1 with creq := upd s.creq (.root .orchestrator) true, orchErr := true }
-          else some s1
+          else
+            -- ... and when the orchestrator is already stopping its ensemble (`is_exiting`), the callback only records the
+            -- error: the orchestrator will raise it after the stop instead of its cancellation
+            match s.st (.root .orchestrator) with
+            | .stopping _ _ =>
+              if cfg.fixed = true ∧ f = true ∧ s.gone i = false then
+                some { s1 with st := upd s1.st (.root .orchestrator) (.stopping true none), orchErr := true }
+              else some s1
+            | _ => some s1
         else none
       | _ => none
     else none
